@@ -42,6 +42,7 @@ class SymEval:
         self.query = query
         self.budget = budget
         self.track_let_blocks = False
+        self.cps_lets = True
 
     # ------------------------------------------------------------------ values
     def subst(self, e, env):
@@ -78,10 +79,25 @@ class SymEval:
                             if tail is not None else ('v', {'k': 'unit'}), ret_is_value=bool(e0.get('inl')))
         if k == 'if':
             c = self.cond(e0['c'], env)
+            if c[0] == 'pat':
+                st_, binds = self.static_pat(c[1], c[2])
+                if st_ is True:
+                    envb = dict(env)
+                    envb.update(binds)
+                    return self.value(e0['t'], envb)
+                if st_ is False:
+                    return self.value(e0['e'], env) if 'e' in e0 else ('v', {'k': 'unit'})
             envt = self.bind_cond(e0['c'], env)
             t = self.value(e0['t'], envt)
             el = self.value(e0['e'], env) if 'e' in e0 else ('v', {'k': 'unit'})
             return ('ite', c, t, el)
+        if k == 'mcall' and e0.get('name') == 'then_some' and len(e0.get('args', [])) == 1 and \
+                (strip(e0['recv']).get('ty') if isinstance(strip(e0['recv']), dict) else None) == 'bool':
+            # `cond.then_some(x)` is `if cond { Some(x) } else { None }`
+            some = {'k': 'call', 'f': {'k': 'path', 'def': 'std::option::Option::Some', 'dk': 'Ctor(Variant, Fn)', 'name': 'Some'},
+                    'args': [self.subst(e0['args'][0], env)]}
+            none = {'k': 'path', 'def': 'std::option::Option::None', 'dk': 'Ctor(Variant, Const)', 'name': 'None'}
+            return ('ite', ('e', self.subst(strip(e0['recv']), env)), ('v', some), ('v', none))
         if k == 'match' and not e0.get('src', '').startswith('TryDesugar'):
             return self.match(e0, env, lambda body, env2: self.value(body, env2))
         if k in ('addr',) or (k == 'unary' and e0.get('op') == 'Deref'):
@@ -90,6 +106,49 @@ class SymEval:
                 return inner
             return ('v', self.subst(e0, env))
         return ('v', self.subst(e0, env))
+
+    def _has_return(self, e):
+        hit = []
+        H.walk(e if isinstance(e, dict) else {}, lambda n, a: hit.append(n) if n.get('k') in ('ret', 'continue', 'break') else None)
+        return bool(hit)
+
+    def value_cps(self, e, env, kv, kret):
+        """value of e in continuation style: kv(value leaf/tree, env) on each path that yields a value, kret on `return`"""
+        self.budget -= 1
+        if self.budget < 0:
+            raise Stop()
+        e0 = e
+        while isinstance(e0, dict) and e0.get('k') == 'block' and not e0.get('stmts') and 'expr' in e0 and not e0.get('inl'):
+            e0 = e0['expr']
+        if not isinstance(e0, dict):
+            return kv(('v', e0), env)
+        k = e0.get('k')
+        if k == 'ret':
+            vt = self.value(e0['e'], env) if 'e' in e0 else ('v', {'k': 'unit'})
+            if kret is None:
+                return ('v', {'k': 'returned', 'e': vt})
+            return kret(vt, env)
+        if k in ('continue', 'break'):
+            return ('v', {'k': k})
+        if k == 'if':
+            c = self.cond(e0['c'], env)
+            t = self.value_cps(e0['t'], self.assume(e0['c'], True, env), kv, kret)
+            el = self.value_cps(e0['e'], self.assume(e0['c'], False, env), kv, kret) if 'e' in e0 else kv(('v', {'k': 'unit'}), env)
+            return ('ite', c, t, el)
+        if k == 'match' and not e0.get('src', '').startswith('TryDesugar'):
+            return self.match(e0, env, lambda body, env2: self.value_cps(body, env2, kv, kret))
+        if k == 'block':
+            inner_ret = (lambda vt, env2=None: kv(vt, env2 if env2 is not None else env)) if e0.get('inl') else kret
+            return self.seq(list(e0.get('stmts', [])), e0.get('expr'), dict(env),
+                            lambda env2, tl: self.value_cps(tl, env2, kv, inner_ret) if tl is not None else kv(('v', {'k': 'unit'}), env2),
+                            kret=inner_ret)
+        vt = self.value(e0, env)
+
+        def dist(t):
+            if t[0] == 'ite':
+                return ('ite', t[1], dist(t[2]), dist(t[3]))
+            return kv(t, env)
+        return dist(vt)
 
     def cond(self, c, env):
         c0 = strip(c)
@@ -108,6 +167,45 @@ class SymEval:
         """hook: new environment for an expression statement with a side effect the evaluator should track"""
         return None
 
+    @staticmethod
+    def static_pat(pat, scrut):
+        """(matches?, bindings) when a constructor pattern meets a constructor value (`Some(x)` / `None` / a unit variant
+        path); (None, {}) when it cannot be told"""
+        s0 = strip(scrut) if isinstance(scrut, dict) else scrut
+        p0 = pat
+        while isinstance(p0, dict) and p0.get('k') == 'pref':
+            p0 = p0['p']
+        if not isinstance(s0, dict) or not isinstance(p0, dict):
+            return None, {}
+
+        def ctor_of_value(v):
+            # variants are compared by name: pattern and value have the same type in a type-checked program, and the
+            # printed path of a re-exported variant (`std::prelude::v1::Some`) differs from its definition path
+            if v.get('k') == 'call' and v['f'].get('k') == 'path' and 'Ctor' in v['f'].get('dk', ''):
+                return v['f'].get('name'), list(v['args'])
+            if v.get('k') == 'path' and 'Ctor' in v.get('dk', ''):
+                return v.get('name'), []
+            return None, None
+        cv, args = ctor_of_value(s0)
+        if cv is None:
+            return None, {}
+        if p0.get('k') == 'ptstruct':
+            cp = p0['path'].get('name')
+            if cp != cv:
+                return False, {}
+            b = {}
+            for sp, a in zip(p0.get('pats', []), args):
+                if sp.get('k') == 'bind' and 'sub' not in sp:
+                    b[sp['name']] = ('v', a)
+                elif sp.get('k') != 'wild':
+                    return None, {}
+            return True, b
+        if p0.get('k') == 'pexpr' and isinstance(p0.get('e'), dict) and p0['e'].get('k') == 'path':
+            return (p0['e'].get('name') == cv), {}
+        if p0.get('k') == 'path':
+            return (p0.get('name') == cv), {}
+        return None, {}
+
     def match(self, m, env, kbody):
         scrut = self.subst(m['scrut'], env)
 
@@ -115,11 +213,18 @@ class SymEval:
             if i >= len(m['arms']):
                 return ('v', {'k': 'unreachable'})
             a = m['arms'][i]
-            body = lambda: kbody(a['body'], env)
             pat = a['pat']
-            always = pat.get('k') in ('wild', 'bind') and 'sub' not in pat
+            st, binds = self.static_pat(pat, scrut)
+            if st is False:
+                return arms(i + 1)
+            env_a = env
+            if binds:
+                env_a = dict(env)
+                env_a.update(binds)
+            body = lambda: kbody(a['body'], env_a)
+            always = st is True or (pat.get('k') in ('wild', 'bind') and 'sub' not in pat)
             if 'guard' in a:
-                inner = ('ite', self.cond(a['guard'], env), body(), arms(i + 1))
+                inner = ('ite', self.cond(a['guard'], env_a), body(), arms(i + 1))
             else:
                 inner = body()
             if always:
@@ -142,6 +247,10 @@ class SymEval:
             # the tail expression can itself be control flow with returns/assignments
             if isinstance(tail, dict) and tail.get('k') in ('if', 'match', 'block', 'ret') and self._has_effects(tail):
                 return self.stmt(tail, env, lambda env2: k(env2, None), kret, as_tail=k)
+            if isinstance(tail, dict) and (tail.get('k') in ('assign', 'assignop') or
+                                           (self.track_let_blocks and tail.get('k') in ('call', 'mcall'))):
+                # an effect in tail position (`Kind::A => x = y,`)
+                return self.stmt(tail, env, lambda env2: k(env2, None), kret)
             return k(env, tail)
         st, rest = stmts[0], stmts[1:]
         return self.stmt(st, env, lambda env2: self.seq(rest, tail, env2, k, kret=kret), kret)
@@ -150,7 +259,7 @@ class SymEval:
         hit = []
 
         def v(n, anc):
-            if n.get('k') in ('ret', 'assign', 'assignop'):
+            if n.get('k') in ('ret', 'assign', 'assignop') or (self.track_let_blocks and n.get('k') in ('call', 'mcall')):
                 hit.append(n)
         H.walk(e, v)
         return bool(hit)
@@ -163,6 +272,20 @@ class SymEval:
         if not isinstance(st, dict):
             return knext(env)
         k = st.get('k')
+        if k == 'slet' and 'els' in st and 'init' in st:
+            # `let PAT = init else { diverge };`
+            env2 = dict(env)
+            for n in H.pat_bindings(st['pat']):
+                env2.pop(n, None)
+            scrut = self.subst(st['init'], env)
+            st_, binds = self.static_pat(st['pat'], scrut)
+            if st_ is True:
+                env2.update(binds)
+                return knext(env2)
+            els = self._branch(st['els'], env, lambda env3, tl: ('v', {'k': 'unreachable'}), kret)
+            if st_ is False:
+                return els
+            return ('ite', ('pat', st['pat'], scrut), knext(env2), els)
         if k == 'slet':
             names = H.pat_bindings(st['pat'])
             env2 = dict(env)
@@ -177,6 +300,32 @@ class SymEval:
                 return self.seq(list(init.get('stmts', [])), init.get('expr'), dict(env),
                                 lambda env3, tl: bound(env3, self.value(tl, env3) if tl is not None else ('v', {'k': 'unit'})),
                                 kret=(lambda vt, env3=None: bound(env3 if env3 is not None else env, vt)) if init.get('inl') else kret)
+            if 'init' in st and self.cps_lets and self._has_return(st['init']):
+                # the initialiser can leave the function / loop (`let x = if c { return a; } else { b };`): evaluate it
+                # path by path, binding the value it yields on each path that continues
+                simple = st['pat'].get('k') == 'bind' and len(names) == 1
+
+                def bound2(vt, env3):
+                    env4 = dict(env3)
+                    if simple:
+                        env4[names[0]] = vt
+                    else:
+                        bound = False
+                        if st['pat'].get('k') == 'ptuple' and vt[0] == 'v' and isinstance(vt[1], dict) and \
+                                strip(vt[1]).get('k') == 'tup' and len(strip(vt[1])['es']) == len(st['pat']['pats']):
+                            # `let (a, b) = (x, y);`
+                            bound = True
+                            for sp, el in zip(st['pat']['pats'], strip(vt[1])['es']):
+                                if sp.get('k') == 'bind' and 'sub' not in sp:
+                                    env4[sp['name']] = ('v', el)
+                                else:
+                                    for n_ in H.pat_bindings(sp):
+                                        env4.pop(n_, None)
+                        if not bound:
+                            for n_ in names:
+                                env4.pop(n_, None)
+                    return knext(env4)
+                return self.value_cps(st['init'], env, bound2, kret)
             if 'init' in st and st['pat'].get('k') == 'bind' and len(names) == 1:
                 env2[names[0]] = self.value(st['init'], env)
             else:
@@ -202,12 +351,87 @@ class SymEval:
             if kret is None:
                 return ('v', {'k': 'returned', 'e': vt})
             return kret(vt, env)
+        if k in ('continue', 'break'):
+            # leaves the loop body being evaluated (callers evaluating a loop body look for these leaves)
+            return ('v', {'k': k})
         if k == 'if':
-            c = self.cond(st['c'], env)
             if as_tail is not None:
                 kt = lambda env2, tl: as_tail(env2, tl)
             else:
                 kt = lambda env2, tl: knext(env2)
+            c_blk = st['c']
+            while isinstance(c_blk, dict) and c_blk.get('k') == 'block' and not c_blk.get('stmts') and 'expr' in c_blk \
+                    and not c_blk.get('inl'):
+                c_blk = c_blk['expr']
+            def on_value(vt, env2):
+                if vt[0] == 'ite':
+                    return ('ite', vt[1], on_value(vt[2], env2), on_value(vt[3], env2))
+                leaf = strip(vt[1]) if isinstance(vt[1], dict) else vt[1]
+                if isinstance(leaf, dict) and leaf.get('k') == 'lit' and leaf.get('t') == 'bool':
+                    env2 = self.assume(st['c'], bool(leaf['v']), env2)
+                    if leaf['v']:
+                        return self._branch(st['t'], env2, kt, kret)
+                    if 'e' in st:
+                        return self._branch(st['e'], env2, kt, kret)
+                    return knext(env2) if as_tail is None else as_tail(env2, None)
+                t_ = self._branch(st['t'], env2, kt, kret)
+                e_ = self._branch(st['e'], env2, kt, kret) if 'e' in st else (
+                    knext(env2) if as_tail is None else as_tail(env2, None))
+                return ('ite', ('e', leaf), t_, e_)
+            if isinstance(c_blk, dict) and c_blk.get('k') == 'let' and isinstance(c_blk.get('init'), dict):
+                i0 = c_blk['init']
+                while isinstance(i0, dict) and i0.get('k') == 'addr':
+                    i0 = i0['e']
+                if isinstance(i0, dict) and i0.get('k') in ('block', 'match', 'if') and \
+                        not (i0.get('k') == 'match' and i0.get('src', '').startswith('TryDesugar')):
+                    # `if let PAT = <decision>`: test the pattern against each outcome of the scrutinee
+                    sv = self.value(i0, env)
+
+                    def on_scrut(vt):
+                        if vt[0] == 'ite':
+                            return ('ite', vt[1], on_scrut(vt[2]), on_scrut(vt[3]))
+                        st_, binds = self.static_pat(c_blk['pat'], vt[1])
+                        if st_ is True:
+                            envb = dict(env)
+                            envb.update(binds)
+                            return self._branch(st['t'], envb, kt, kret)
+                        if st_ is False:
+                            if 'e' in st:
+                                return self._branch(st['e'], env, kt, kret)
+                            return knext(env) if as_tail is None else as_tail(env, None)
+                        envp = dict(env)
+                        for n_ in H.pat_bindings(c_blk['pat']):
+                            envp.pop(n_, None)
+                        t_ = self._branch(st['t'], envp, kt, kret)
+                        e_ = self._branch(st['e'], env, kt, kret) if 'e' in st else (
+                            knext(env) if as_tail is None else as_tail(env, None))
+                        return ('ite', ('pat', c_blk['pat'], vt[1]), t_, e_)
+                    if sv[0] == 'ite':
+                        return on_scrut(sv)
+            if isinstance(c_blk, dict) and c_blk.get('k') == 'block' and c_blk.get('stmts') and self.track_let_blocks:
+                # the condition runs statements first (an inlined predicate with side effects): run them, then branch
+                # on the value it yields on each of its paths
+                return self.seq(list(c_blk.get('stmts', [])), c_blk.get('expr'), dict(env),
+                                lambda env2, tl: on_value(self.value(tl, env2) if tl is not None else ('v', {'k': 'unit'}), env2),
+                                kret=(lambda vt, env2=None: on_value(vt, env2 if env2 is not None else env))
+                                if c_blk.get('inl') else kret)
+            if isinstance(c_blk, dict) and c_blk.get('k') in ('block', 'match', 'if') and \
+                    not (c_blk.get('k') == 'match' and c_blk.get('src', '').startswith('TryDesugar')):
+                # a condition that is itself a decision (an inlined predicate, `matches!`): branch on each of its outcomes
+                cv = self.value(c_blk, env)
+                if cv[0] == 'ite':
+                    return on_value(cv, env)
+            c = self.cond(st['c'], env)
+            if c[0] == 'pat':
+                st_, binds = self.static_pat(c[1], c[2])
+                if st_ is True:
+                    envb = dict(env)
+                    envb.update(binds)
+                    return self._branch(st['t'], envb, kt, kret)
+                if st_ is False:
+                    if 'e' in st:
+                        return self._branch(st['e'], env, kt, kret)
+                    return knext(env) if as_tail is None else as_tail(env, None)
             env_t = self.assume(st['c'], True, env)
             env_e = self.assume(st['c'], False, env)
             t = self._branch(st['t'], env_t, kt, kret)
@@ -230,6 +454,14 @@ class SymEval:
             if as_tail is not None:
                 return self.seq(list(st.get('stmts', [])), st.get('expr'), env, as_tail, kret=kret)
             return self.seq(list(st.get('stmts', [])), st.get('expr'), env, lambda env2, tl: knext(env2), kret=kret)
+        if H.is_try(st):
+            # `helper(..)?` in statement position: the helper's effects happen, an error leaves the function (not followed)
+            inner = H.try_inner(st)
+            while isinstance(inner, dict) and inner.get('k') == 'block' and not inner.get('stmts') and 'expr' in inner \
+                    and not inner.get('inl'):
+                inner = inner['expr']
+            if isinstance(inner, dict) and inner.get('k') == 'block' and (inner.get('stmts') or inner.get('inl')):
+                return self.stmt(inner, env, knext, kret)
         other = self.effect(st, env)
         if other is not None:
             return knext(other)
